@@ -59,4 +59,16 @@ PROPS = {
         ],
         "assumptions": ["values are not mutated by the user", "Set.All() is consumed completely (early break is outside the property)"],
     },
+    "C13": {
+        "suites": ["lpm"],
+        "lean_modules": ["SdbModel.Props.C13"],
+        "level": "translation_validation",
+        "facts_key": "art",
+        "rule": "lpm suite: a case = 1-5 (quick) / 1-8 (thorough) transactions of up to 25/80 operations on lpm.Trie (Insert, Delete, Lookup of full-length and arbitrary keys, LookupExact, All, Prefix, LowerBound, Len, retained iterators, structure dumps), branching from old versions and abandoned transactions; key widths 1, 2, 4 and 16 bytes, data bytes from an alphabet whose members diverge at every bit position, prefix lengths 0..max with re-use of stored keys at shorter/longer lengths; all versions and iterators re-read at the end. Non-trivial = every case; distinct = sha256 of op list",
+        "trusted_base": COMMON_TB + [
+            "Model.Lpm is a hand-written byte-level model of lpm/trie.go, iterator.go; tied by comparing every return value, iteration result and the full trie structure (keys, imaginary flags, children) after each operation",
+            "Lookup with a key that is neither full-length nor stored is outside the property (note N2): compared with the model, not with the oracle",
+        ],
+        "assumptions": ["keys are produced by EncodeLPMKey (DecodeLPMKey panics otherwise)", "prefix lengths < 2^16"],
+    },
 }
